@@ -33,9 +33,11 @@
    * JOIN/PART/KICK/MODE/TOPIC of others only for channels the client is on; NICK/QUIT only
      for users sharing a channel with the client (and the client's own NICK);
    * -k carries the key as argument (RFC 2812), -l carries none.
-   OUTSIDE THE CLAIM (property text + DESIGN D10): user modes derived from WHO flags (the view
-   records what the handler derives, the oracle masks them); mode lines in which an
-   argument-taking letter follows "-k" or a list mode (b e I) — [modes_inclaim].
+   OUTSIDE THE CLAIM (property text): user modes derived from WHO flags (the view records what
+   the handler derives, the oracle masks them); mode lines in which an argument-taking letter
+   follows "-k" — [modes_inclaim].  List modes b e I with their mask are INSIDE the claim (any
+   position in a mode line; the view ignores the lists, the tracker skips the mask: D10 fixed).
+   Other parametrised, server-specific modes (+f, +j, +L, ...) are not modelled.
 
    std++ side; LineSend (msg/render/expected) is Required, not Imported.  Executable only. *)
 From Verif Require Export TrackerSpec.
@@ -58,7 +60,7 @@ Inductive mchange :=
 | MKey (add : bool) (k : bytes)              (* +k key / -k key *)
 | MLimit (add : bool) (l : Z)                (* +l n / -l (number ignored) *)
 | MPriv (add : bool) (c : N) (n : name)      (* q a o h v for a member *)
-| MList (add : bool) (c : N) (mask : bytes). (* b e I: list modes, unknown to the tracker *)
+| MList (add : bool) (c : N) (mask : bytes). (* b e I: list modes; not tracked, mask skipped *)
 
 Inductive event :=
 | EConnect (n : name) (u h r : bytes)
@@ -166,28 +168,27 @@ Definition is_flag_letter (c : N) : bool :=
   GoBytes.mem_byte c [112;115;116;110;109;105;79;122;114;90]%N.
 Definition is_list_letter (c : N) : bool := GoBytes.mem_byte c [98;101;73]%N.
 Definition max_limit : Z := 2147483647.
-(* can the server have performed this change on channel [c].  (For +l the last conjunct says
-   that the decimal rendering of the limit reads back as the limit — true of every number in
-   range; kept as an executable check instead of a proof of the decimal round trip.) *)
+(* can the server have performed this change on channel [c] *)
 Definition chg_valid (mem : gmap (name * name) privs) (c : name) (m : mchange) : bool :=
   match m with
   | MFlag _ x => is_flag_letter x
   | MKey _ k => LineSend.middle_ok k
-  | MLimit true l => (0 <? l) && (l <=? max_limit) && (atoi (GoBytes.dec_of_Z l) =? l)
+  | MLimit true l => (0 <? l) && (l <=? max_limit)
   | MLimit false _ => true
   | MPriv _ x n => is_priv_char x && onb mem c n
   | MList _ x mask => is_list_letter x && LineSend.middle_ok mask
   end.
-(* does the letter take an argument FROM THE TRACKER'S point of view (channel.parseModes) *)
+(* does the letter take an argument FROM THE TRACKER'S point of view (channel.parseModes):
+   +k, +l, the privileges, and — since the D10 fix — the list modes b e I (their mask) *)
 Definition chg_consumes (m : mchange) : bool :=
   match m with
-  | MKey true _ | MLimit true _ | MPriv _ _ _ => true
+  | MKey true _ | MLimit true _ | MPriv _ _ _ | MList _ _ _ => true
   | _ => false
   end.
-(* does the change leave an argument behind that the tracker does not consume *)
+(* does the change leave an argument behind that the tracker does not consume: only "-k key" *)
 Definition chg_leaves (m : mchange) : bool :=
-  match m with MKey false _ | MList _ _ _ => true | _ => false end.
-(* INSIDE THE CLAIM: no argument-taking letter after "-k" or a list mode in the same line *)
+  match m with MKey false _ => true | _ => false end.
+(* INSIDE THE CLAIM: no argument-taking letter after "-k" in the same line (property text) *)
 Fixpoint modes_inclaim_from (dirty : bool) (chs : list mchange) : bool :=
   match chs with
   | [] => true
@@ -212,6 +213,7 @@ Definition ev_valid (nt : net) (e : event) : bool :=
   match e with
   | EConnect n u h r =>
       nick_ok n && LineSend.name_ok u && LineSend.name_ok h && text_ok r
+      && LineSend.middle_ok u && LineSend.middle_ok h
       && bool_decide (n_users nt !! n = None)
   | EJoin n c =>
       bool_decide (is_Some (n_users nt !! n)) && chan_ok c && negb (onb (n_member nt) c n)
@@ -225,8 +227,8 @@ Definition ev_valid (nt : net) (e : event) : bool :=
       && forallb (chg_valid (n_member nt) c) chs
       && Nat.leb 1 (length chs) && Nat.leb (length chs) 8
   | EReplyMode c => true
-  | EReplyWhoChan c => true
-  | EReplyWhoNick n => true
+  | EReplyWhoChan c => chan_ok c          (* a WHO the server can answer names a channel ... *)
+  | EReplyWhoNick n => nick_ok n          (* ... or a nick *)
   end.
 
 (* ---------- the view: what each event reveals ---------- *)
